@@ -9,6 +9,7 @@ preemptions.  Nothing here samples: VERIF_SEED only permutes visiting order.
 import hashlib
 import itertools
 import multiprocessing
+from . import modstate
 import os
 import random
 import sys
@@ -161,6 +162,18 @@ def _children(points, ov, last_pos, d, rng):
             yield nov, pos
 
 
+def replay_constant(case, st):
+    """Re-run one execution that changed a library constant (see mc/modstate.py)."""
+    import importlib
+    mod = importlib.import_module(case['module'])
+    run = getattr(mod, case['run'])
+    modstate.baseline()
+    ch = Ch({k: v for k, v in case['ov'].items()})
+    tmp = Stats()
+    run(ch, tmp, *[tuple(a) if isinstance(a, list) else a for a in case['args']])
+    modstate.report_constants(st, case)
+
+
 def explore_subtree(run, stats, ov, last_pos, d, rng=None, args=()):
     """Depth-first enumeration below one node; ``run(ch, stats, *args)`` executes one leaf."""
     stack = [(ov, last_pos)]
@@ -169,6 +182,9 @@ def explore_subtree(run, stats, ov, last_pos, d, rng=None, args=()):
         ch = Ch(ov)
         run(ch, stats, *args)
         ch.check_used()
+        if modstate.report_constants(stats, {'kind': 'library-constant', 'module': run.__module__, 'run': run.__name__,
+                                             'ov': dict(ov), 'args': list(args)}):
+            stats.count('executions_that_changed_a_library_constant')
         stats.count('executions')
         stats.count('states')                  # one node of the choice tree per override set
         stats.count('choice_points', len(ch.points))
